@@ -427,7 +427,8 @@ theorem C07_prelude_present {sd : SchemaDoc} {s : Schema} (h : load sd = .ok s) 
 /- ------------------------------------------------------------------ load vs WellFormed -/
 
 /-
-  Full statement (FALSE for the code as it is, in the ⇒ direction):
+  Full statement (FALSE for the code as it is, in the ⇒ direction; `C07_load_sound` is that direction
+  under the hypothesis that excludes the remaining witness; the ⇐ direction is judged by exploration):
     theorem C07_load_iff_wellformed (sd) : (load sd).isOk = true ↔ Spec.WellFormed sd
   Remaining witness: R7b (a builtin directive redeclared more than once is accepted and the last
   declaration wins, see C17_directive_perm_counterexample).  The former witnesses R7c (`enum E { __A }`)
@@ -459,9 +460,8 @@ theorem C07_load_iff_wellformed_counterexample_directive :
     field or ENUM VALUE names, at most one `schema` block, every root operation type given at most ONCE,
     extensions of the base's kind, and no enum value named `true`/`false`/`null`.
     (`hext`: extensions are not `builtIn` — the prelude has none.)
-    `implementsFieldsOK` is `C07_load_sound_implementsFields` below.  Not covered by a theorem: the
-    directive clauses and the two argument clauses that range over directive definitions (judged by
-    exploration), and the one clause the code violates (`uniqueDirectiveNames`). -/
+    `implementsFieldsOK` is `C07_load_sound_implementsFields`, the directive clauses are
+    `C07_load_sound_directives`, all 26 clauses together `C07_load_sound` (below). -/
 theorem C07_load_sound_partial {sd : SchemaDoc} {s : Schema} (h : load sd = .ok s)
     (hext : ∀ e ∈ sd.extensions, e.builtIn = false) : SoundClauses sd :=
   load_sound h hext
@@ -482,6 +482,28 @@ theorem C07_load_sound_implementsFields {sd : SchemaDoc} {s : Schema} (h : load 
     satisfies the hypotheses and loads -/
 example : NamesLexical Examples.implOkDoc ∧ (load Examples.implOkDoc).isOk = true ∧
     Spec.implementsFieldsOK (.ofDoc Examples.implOkDoc) = true := ⟨by decide, by decide, by decide⟩
+
+/-- **C07_load_sound — the ⇒ direction of "loads iff well formed"**, for documents in which no
+    directive name is declared twice: every document the loader accepts satisfies EVERY clause of
+    `Spec.WellFormed` (all 26).  The hypothesis `DirectiveNamesDistinct` cannot be dropped: a builtin
+    directive redeclared more than once is accepted with the last declaration in force (finding R7b,
+    `C07_load_iff_wellformed_counterexample_directive`), and the clauses then read another definition
+    than the loader.  (`hext`, `NamesLexical`: guarantees of the prelude and of the lexer.) -/
+theorem C07_load_sound {sd : SchemaDoc} {s : Schema} (h : load sd = .ok s)
+    (hext : ∀ e ∈ sd.extensions, e.builtIn = false) (hlex : NamesLexical sd) (hd : DirectiveNamesDistinct sd) :
+    Spec.WellFormed sd :=
+  load_wellFormed h hext hlex hd
+
+/-- the directive clauses alone (no `NamesLexical`) -/
+theorem C07_load_sound_directives {sd : SchemaDoc} {s : Schema} (h : load sd = .ok s)
+    (hext : ∀ e ∈ sd.extensions, e.builtIn = false) (hd : DirectiveNamesDistinct sd) : DirectiveClauses sd :=
+  load_directive_clauses h hext hd
+
+/-- non-vacuity: a document that declares and applies a directive (on a type and on an argument),
+    satisfies the hypotheses and loads -/
+example : NamesLexical Examples.dirOkDoc ∧ DirectiveNamesDistinct Examples.dirOkDoc ∧
+    (load Examples.dirOkDoc).isOk = true ∧ (Spec.TypeSystem.ofDoc Examples.dirOkDoc).directiveUses.length = 2 :=
+  ⟨by decide, by decide, by decide, by decide⟩
 
 /-- non-vacuity of the spec: the small valid document is well formed and loads -/
 example : Spec.WellFormed Examples.okDoc ∧ (load Examples.okDoc).isOk = true := ⟨by decide, by decide⟩
